@@ -68,10 +68,12 @@ fn eval_q(f: &Aff, x: &[f64]) -> Vec<Q> {
 
 pub fn run_case(ctx: &Ctx, case: u64, ev: &mut Ev) {
     let mut rng = Rng::derive(ctx.seed, "C16", case);
+    rng.big = ctx.tier == crate::Tier::Thorough && rng.chance(0.2);
     let rg = regime(&mut rng);
-    let n = 1 + rng.below(5);
-    let m = 1 + rng.below(5);
-    let k = 1 + rng.below(5);
+    let dmax = if rng.big { 9 } else { 5 };
+    let n = 1 + rng.below(dmax);
+    let m = 1 + rng.below(dmax);
+    let k = 1 + rng.below(dmax);
     let f = gen::aff(&mut rng, m, n, rg); // R^n -> R^m
     let g = gen::aff(&mut rng, n, k, rg); // R^k -> R^n
     let f2 = gen::aff(&mut rng, m, n, rg); // same shape as f
